@@ -184,8 +184,8 @@ func c11Scenarios() []c11Scenario {
 	add("phase-ref-rev", false, true, "phase", "--unaligned", "--reverse", "--cut-end", "--ref-orf", "@orf.fa", "-i", "@unal.fa")
 	add("phase-alignment-error", false, true, "phase", "--unaligned", "-i", "@unalerr.fa")
 	add("phasent", false, true, "phasent", "--unaligned", "-i", "@unal.fa", "--aa-output", "aa.out", "--nt-output", "nt.out")
-	add("orf", false, false, "orf", "--unaligned", "-i", "@unal.fa")
-	add("orf-reverse", false, false, "orf", "--reverse", "--unaligned", "-i", "@unal.fa")
+	add("orf", false, false, "orf", "-i", "@unal.fa")
+	add("orf-reverse", false, false, "orf", "--reverse", "-i", "@unal.fa")
 	add("sw", false, false, "sw", "-i", "@pair.fa", "-l", "sw.log")
 	add("translate", false, false, "translate", "-i", "@nt.fa")
 	add("translate-3", false, false, "translate", "--phase", "-1", "--unaligned", "-i", "@unal.fa")
